@@ -46,11 +46,11 @@ Proof. vm_compute. reflexivity. Qed.
     try:
         progs = struct_scan.programs()
         ptxt = struct_scan.coq_programs(progs) + """
-Lemma constructors_safe : prog_safe dimension_prog && prog_safe prefix_prog && prog_safe unit_prog = true.
+Lemma constructors_safe : prog_safe dimension_prog && prog_safe prefix_prog && prog_safe unit_prog && prog_safe logarithm_prog && prog_safe logarithmicunit_prog = true.
 Proof. vm_compute. reflexivity. Qed.
 """
         ok, log = c.run_coq({"Gen_newprog": ptxt})["Gen_newprog"]
-        c.oblige("Gen_newprog.constructors_safe (Dimension/Prefix/Unit.__new__, translated instruction by instruction, are accepted by the proved abstract "
+        c.oblige("Gen_newprog.constructors_safe (Dimension/Prefix/Unit/Logarithm/LogarithmicUnit.__new__, translated instruction by instruction, are accepted by the proved abstract "
                  "interpretation: one object per key under every schedule, C20_program_safe)", ok, log[-500:])
         c.cov["constructor_programs"] = {k: [i for i, _ in v["prog"]] for k, v in progs.items()}
     except struct_scan.Untranslatable as ex:
@@ -89,7 +89,7 @@ Proof. vm_compute. reflexivity. Qed.
         for _ in range(20 if c.tier == "quick" else 200):
             cases.append({"cls": cls, "threads": 3, "schedule": [c.rng.randrange(3) for _ in range(40)]})
     # non-integral prefix exponents, products of SI and IEC prefixes, and chained expressions with a new intermediate
-    for cls in ("PrefixFloat", "PrefixMixed", "PrefixDecimal", "PrefixDecimalUnit", "DimChain", "UnitChain", "UnpicklePrefix", "UnpickleDimension"):
+    for cls in ("PrefixFloat", "PrefixMixed", "PrefixDecimal", "PrefixDecimalUnit", "DimChain", "UnitChain", "UnpicklePrefix", "UnpickleDimension", "Logarithm", "LogarithmPrefixed", "LogUnit"):
         for sc in (scheds[:60] if c.tier == "quick" else scheds[::2]):
             cases.append({"cls": cls, "threads": 2, "schedule": sc})
         for sc in fine[:(60 if c.tier == "quick" else 400)]:
@@ -124,7 +124,7 @@ Proof. vm_compute. reflexivity. Qed.
     if progs is not None:
         files = {}
         nrep = 0
-        for cls in ("Dimension", "Prefix", "Unit"):
+        for cls, case_cls in (("Dimension", "Dimension"), ("Prefix", "Prefix"), ("Unit", "Unit"), ("Logarithm", "Logarithm"), ("LogarithmicUnit", "LogUnit")):
             pr = progs[cls]
             lmap = {}
             second = {}
@@ -143,7 +143,7 @@ Proof. vm_compute. reflexivity. Qed.
             terms = []
             for ch, o in zip(chunks, outs):
                 for case, r in zip(ch, o["results"]):
-                    if case["cls"] != cls or not r.get("trace_full") or r["lines"] > 600 or not r["finished"]: continue
+                    if case["cls"] != case_cls or not r.get("trace_full") or r["lines"] > 600 or not r["finished"]: continue
                     evs = events(r["trace_full"])
                     obs = clist(("None" if l is None else f"Some {l}%nat") for l in r["labels"])
                     terms.append(f"({case['threads']}%nat, {clist(f'({i}%nat, {idx}%nat)' for i, idx in evs)}, {obs})")
